@@ -47,6 +47,12 @@ class P(framework.Prop):
         for h in ["7ff0000000000000", "fff0000000000000", "7ff8000000000000"]:
             out.append("conv f64 " + h)
         out += ["conv unit", "conv bool t", "conv bool f"]
+        # 128-bit integers are not specially handled and the generic route refuses them: the same refusal in every build, whatever the value
+        for v in [0, 7, -7, 255, 2**31, 2**63 - 1, 2**63, 2**64 - 1, 2**64, -2**63, -2**63 - 1, 2**127 - 1, -2**127]:
+            out.append("conv i128 %d" % v)
+            if v >= 0:
+                out.append("conv u128 %d" % v)
+        out.append("conv u128 %d" % (2**128 - 1))
         N = 300 if tier == "quick" else 20000
         for _ in range(N):
             d = gen.rand_doc(rng, 3)
